@@ -15,7 +15,7 @@ REQUIRED_COUNTERS = ["events_read_back.memory", "events_read_back.sqlite", "even
 RULE = ("per case one store (memory / sqlite file / peewee file), one bucket created with a data dict, 1-12 generated "
         "events (instants 1970..2100 at any UTC offset, durations 0..30 d at µs granularity, nested JSON data) "
         "inserted singly or in bulk (bulk sizes straddling 50/100/101/250 in some cases), read back by listing and by "
-        "id, then every caller-side object (events passed in, returned, handed out; metadata dicts; the create/update "
+        "id and through seven further read shapes (limit 1 / 2 / huge, lower / upper / both bounds, a second Bucket wrapper), then every caller-side object (events passed in, returned, handed out by any of these reads; metadata dicts; the create/update "
         "data dict) is mutated and everything is read again; then replace / replace_last / bulk upsert with the same "
         "mutate-afterwards probe; then one event that is not the newest is deleted and three more are inserted (single + "
         "bulk) and ids / lookups re-checked; in half of the cases six equal-looking events (same instant and duration, data equal or "
@@ -75,6 +75,22 @@ def _snapshot(ds, b):
         byid[t[0]] = obs(e) if e is not None else None
     return dict(listing=lst, byid=byid, meta=meta_canon(b.metadata()),
                 buckets=canon({k: meta_canon(v) for k, v in ds.buckets().items()}))
+
+
+def _read_shapes(ds, b, specs):
+    """Events handed out by the other shapes of read a caller has: limited, newest-only, bounded on either or both
+    sides, through a second Bucket wrapper."""
+    from ..gen import mk_dt as us_dt
+    out = []
+    lo = min(floor_ms(s["ts"]) for s in specs)
+    hi = max(s["ts"] + s["dur"] for s in specs) + 1000
+    b2 = ds["b"]
+    for kw in (dict(limit=1), dict(limit=2), dict(limit=1, starttime=us_dt(lo)), dict(limit=-1, starttime=us_dt(lo)),
+               dict(limit=-1, endtime=us_dt(hi)), dict(limit=3, starttime=us_dt(lo), endtime=us_dt(hi)),
+               dict(limit=10**6)):
+        out.extend(b2.get(**kw))
+    out.extend(b.get(1))
+    return out
 
 
 def _sig(backend, bulk, spec):
@@ -167,6 +183,9 @@ def run_case(case, ctx):
                 _cmp("lookup", _want(s), obs(e2), viols)
                 handed_out.append(e2)
             sigs.append(_sig(backend, case["bulk"], s))
+        if specs:
+            handed_out.extend(_read_shapes(ds, b, specs))
+            ctx.count("read_shapes_probed_for_aliasing", 8)
         if len(set(ids)) != len(ids):
             viols.append(("ids-not-unique", f"{ids}"))
         ctx.count(f"events_read_back.{backend}", len(specs))
@@ -201,6 +220,7 @@ def run_case(case, ctx):
             upd = copy.deepcopy(case["update_data"])
             ds.update_bucket("b", data=upd)
             handed_out = b.get(-1) + [x for x in (b.get_by_id(i) for i in ids) if x is not None]
+            handed_out.extend(_read_shapes(ds, b, specs + case["repl"]))
             before = _snapshot(ds, b)
             # the rewritten rows hold the new values exactly
             cur = {t[0]: t for t in before["listing"]}
